@@ -1,6 +1,7 @@
 import CM.Driver.Json
 import CM.Model.Exit
 import CM.Driver.OpsRS
+import CM.Driver.OpsReg
 open Lean
 namespace CM.Driver
 
@@ -42,6 +43,9 @@ def dispatch (j : Json) : Except String Json := do
   | "sarif_read" => opSarifRead j
   | "dd_read" => opDdRead j
   | "detect_tools" => opDetectTools j
+  | "match_codemods" => opMatchCodemods j
+  | "csv_list" => opCsvList j
+  | "id_glob" => opGlob j
   | _ => .error s!"bad-op: unknown op {op}"
 
 end CM.Driver
